@@ -83,6 +83,19 @@ NANkw   == <<78, 65, 78>>
 ONkw    == <<79, 78>>
 OFFkw   == <<79, 70, 70>>
 
+(* IEEE 488.2 7.7.2.4.1 size limits of a decimal literal: more than 255 mantissa digits after the leading zeros, or an
+   exponent beyond +-32000.  A lexer may refuse such a literal with a command error (then no conversion is attempted). *)
+RECURSIVE SigFrom(_, _, _)
+SigFrom(s, k, started) ==
+    IF k > Len(s) \/ s[k] \in {69, 101} THEN 0
+    ELSE IF s[k] \in 48..57 THEN (IF started \/ s[k] # 48 THEN 1 + SigFrom(s, k + 1, TRUE) ELSE SigFrom(s, k + 1, FALSE))
+    ELSE SigFrom(s, k + 1, started)
+ExpDigitsBeyond(s) ==
+    LET e == FindByte(s, 1, {69, 101}) IN
+    IF e = 0 THEN FALSE
+    ELSE LET st == IF e + 1 <= Len(s) /\ s[e + 1] \in {43, 45} THEN e + 2 ELSE e + 1 IN SmallVal(s, st, Len(s), 0) > 32000
+Beyond4882(lit) == SigFrom(lit, 1, FALSE) > 255 \/ ExpDigitsBeyond(lit)
+
 (* any data element -> integer type (C07).  row.kind is the element type, row.lit its text,
    row.val the exact value of a non-decimal literal (natural) *)
 (* the exact value of a well-formed non-decimal literal, computed from its text (not from the
